@@ -239,20 +239,33 @@ func registerIntrinsics(m *Machine) {
 			m.goPanic("sync: unlock of unlocked mutex (Cond.Wait)")
 		}
 		mu.locked = false
-		gen := s.condGen
-		m.block(func() bool { return s.condGen != gen }, "Cond.Wait")
+		w := &condWaiter{}
+		s.condWait = append(append([]*condWaiter{}, s.condWait...), w)
+		m.block(func() bool { return w.woken }, "Cond.Wait")
 		m.block(func() bool { return !mu.locked }, "Cond.Wait relock")
 		mu.locked = true
 		return nil
 	}
-	wake := func(m *Machine, fr *frame, a []Value, _ *ssa.CallCommon) Value {
+	// Signal wakes the longest-waiting goroutine (the runtime's notify list is first in, first
+	// out), Broadcast all of them; a goroutine that starts waiting afterwards is not woken
+	I["(*sync.Cond).Signal"] = func(m *Machine, fr *frame, a []Value, _ *ssa.CallCommon) Value {
 		s := m.sync(a[0].(*Value))
-		s.condGen++
+		if len(s.condWait) > 0 {
+			s.condWait[0].woken = true
+			s.condWait = append([]*condWaiter{}, s.condWait[1:]...)
+		}
 		m.schedPoint()
 		return nil
 	}
-	I["(*sync.Cond).Signal"] = wake
-	I["(*sync.Cond).Broadcast"] = wake
+	I["(*sync.Cond).Broadcast"] = func(m *Machine, fr *frame, a []Value, _ *ssa.CallCommon) Value {
+		s := m.sync(a[0].(*Value))
+		for _, w := range s.condWait {
+			w.woken = true
+		}
+		s.condWait = nil
+		m.schedPoint()
+		return nil
+	}
 	I["(*sync.Pool).Get"] = func(m *Machine, fr *frame, a []Value, _ *ssa.CallCommon) Value {
 		p := a[0].(*Value)
 		st := (*p).(Struct)
